@@ -403,17 +403,152 @@ Section Inner.
     ~ active st h -> ((~ active st h /\ st' = st) \/ (active st h /\ step_kind st h st')) -> st' = st.
   Proof. intros Hn [[_ H]|[H _]]; [exact H|contradiction]. Qed.
 
-  Lemma nts_loop_run walk : forall st, minv st -> nts_loop info dcs dc_racks walk st = nts_run walk st.
+  (* ---- the hosts already been through (seenHosts) --------------------------------------------------- *)
+  (* what the state holds comes from distinct hosts that have been visited *)
+  Record vinv (m : nts_state) (visited : list Z) : Prop := {
+    vi_nodup : NoDup (ns_replicas m);
+    vi_reps : incl (ns_replicas m) visited;
+    vi_sk : forall dc, incl (getl (ns_skipped m) dc) visited;
+    vi_sk_nodup : forall dc, NoDup (getl (ns_skipped m) dc);
+    vi_sk_disj : forall dc x, In x (getl (ns_skipped m) dc) -> ~ In x (ns_replicas m) }.
+
+  Lemma vinv_more m visited h : vinv m visited -> vinv m (h :: visited).
   Proof.
-    induction walk as [|h rest IH]; intros st Hm; simpl; [reflexivity|].
-    destruct (nts_step_ok st h Hm) as [st1 [H1 [H2 H3]]]. rewrite H1.
+    intros [H1 H2 H3 H4 H5]. split; auto.
+    - intros x Hx. right. apply H2. exact Hx.
+    - intros dc x Hx. right. apply (H3 dc). exact Hx.
+  Qed.
+
+  Lemma firstn_skipn_disj {A} n (l : list A) x : NoDup l -> In x (firstn n l) -> In x (skipn n l) -> False.
+  Proof.
+    intros Hnd H1 H2. rewrite <- (firstn_skipn n l) in Hnd.
+    revert Hnd H1 H2. generalize (firstn n l) (skipn n l). intros a b.
+    induction a as [|y a IH]; simpl; intros Hnd H1 H2; [exact H1|].
+    inversion Hnd as [|? ? Hy Hnd']; subst. destruct H1 as [->|H1].
+    - apply Hy. apply in_or_app. right. exact H2.
+    - apply IH; assumption.
+  Qed.
+
+  Lemma NoDup_app_intro {A} (a b : list A) :
+    NoDup a -> NoDup b -> (forall x, In x a -> In x b -> False) -> NoDup (a ++ b).
+  Proof.
+    induction a as [|y a IH]; simpl; intros Ha Hb Hd; [exact Hb|].
+    inversion Ha as [|? ? Hy Ha']; subst. constructor.
+    - rewrite in_app_iff. intros [H|H]; [contradiction|]. apply (Hd y); [left; reflexivity|exact H].
+    - apply IH; auto. intros x Hx1 Hx2. apply (Hd x); [right; exact Hx1|exact Hx2].
+  Qed.
+
+  (* an iteration for a host not seen before keeps it *)
+  Lemma vinv_step m visited h m' :
+    minv m -> vinv m visited -> ~ In h visited -> step_kind m h m' -> vinv m' (h :: visited).
+  Proof.
+    intros Hm [F1 F2 F3 F4 F5] Hnv Hk.
+    assert (Hnin : ~ In h (ns_replicas m)) by (intros H; apply Hnv, F2; exact H).
+    assert (Hnsk : forall dc, ~ In h (getl (ns_skipped m) dc)) by (intros dc H; apply Hnv, (F3 dc); exact H).
+    destruct Hk as [Hs Hl|taken Hs Ht|Hs Hl].
+    - split; cbn [ns_replicas ns_skipped]; auto.
+      + apply NoDup_snoc; assumption.
+      + intros x Hx. apply in_app_iff in Hx. destruct Hx as [Hx|[<-|[]]]; [right; apply F2; exact Hx|left; reflexivity].
+      + intros dc x Hx. right. apply (F3 dc). exact Hx.
+      + intros dc x Hx. rewrite in_app_iff. simpl. intros [H|[H|[]]]; [apply (F5 dc x Hx H)|]. subst x. apply (Hnsk dc Hx).
+    - set (sk := getl (ns_skipped m) (dc_of h)) in *.
+      set (E := (length (getl (ns_seen m) (dc_of h) ++ [rack_of h]) =? length (getl dc_racks (dc_of h)))%nat) in *.
+      assert (Htk : incl taken sk) by (rewrite Ht; destruct E; [apply drain_incl|intros x []]).
+      assert (Htk_first : taken = firstn (length taken) sk) by (rewrite Ht; destruct E; [apply drain_firstn|reflexivity]).
+      assert (Hsk_new : forall dc' x,
+                In x (getl (if E then aset (ns_skipped m) (dc_of h) (skipn (length taken) sk) else ns_skipped m) dc')
+                -> In x (getl (ns_skipped m) dc') /\ (dc' = dc_of h -> ~ In x taken)).
+      { intros dc' x. destruct E.
+        - destruct (str_eq_dec dc' (dc_of h)) as [->|Hne].
+          + rewrite getl_aset_same. intros Hx. split; [apply In_skipn in Hx; exact Hx|].
+            intros _ Hx2. rewrite Htk_first in Hx2. apply (firstn_skipn_disj _ _ _ (F4 (dc_of h)) Hx2 Hx).
+          + rewrite getl_aset_other by exact Hne. intros Hx. split; [exact Hx|congruence].
+        - intros Hx. split; [exact Hx|]. intros _. rewrite Ht. intros []. }
+      split; cbn [ns_replicas ns_skipped].
+      + rewrite app_assoc. apply NoDup_app_intro.
+        * apply NoDup_snoc; assumption.
+        * rewrite Htk_first. apply NoDup_firstn. apply F4.
+        * intros x Hx1 Hx2. apply Htk in Hx2. apply in_app_iff in Hx1. destruct Hx1 as [Hx1|[<-|[]]].
+          -- apply (F5 (dc_of h) x Hx2 Hx1).
+          -- apply (Hnsk (dc_of h) Hx2).
+      + intros x Hx. rewrite !in_app_iff in Hx. destruct Hx as [Hx|[[<-|[]]|Hx]].
+        * right. apply F2. exact Hx.
+        * left. reflexivity.
+        * right. apply (F3 (dc_of h)). apply Htk. exact Hx.
+      + intros dc' x Hx. apply Hsk_new in Hx. right. apply (F3 dc'). tauto.
+      + intros dc'. destruct E; [|apply F4].
+        destruct (str_eq_dec dc' (dc_of h)) as [->|Hne].
+        * rewrite getl_aset_same. apply NoDup_skipn. apply F4.
+        * rewrite getl_aset_other by exact Hne. apply F4.
+      + intros dc' x Hx. destruct (Hsk_new dc' x Hx) as [G1 G2].
+        rewrite !in_app_iff. simpl. intros [H|[[H|[]]|H]].
+        * apply (F5 dc' x G1 H).
+        * subst x. apply (Hnsk dc' G1).
+        * destruct (str_eq_dec dc' (dc_of h)) as [->|Hne]; [apply G2; auto|].
+          apply Hne. rewrite <- (mi_skip_dc m Hm dc' x G1).
+          apply (mi_skip_dc m Hm (dc_of h) x). apply Htk. exact H.
+    - split; cbn [ns_replicas ns_skipped]; auto.
+      + intros x Hx. right. apply F2. exact Hx.
+      + intros dc. destruct (str_eq_dec dc (dc_of h)) as [->|Hne].
+        * rewrite getl_aset_same. intros x Hx. apply in_app_iff in Hx.
+          destruct Hx as [Hx|[<-|[]]]; [right; apply (F3 (dc_of h)); exact Hx|left; reflexivity].
+        * rewrite getl_aset_other by exact Hne. intros x Hx. right. apply (F3 dc). exact Hx.
+      + intros dc. destruct (str_eq_dec dc (dc_of h)) as [->|Hne].
+        * rewrite getl_aset_same. apply NoDup_snoc; [apply F4|apply Hnsk].
+        * rewrite getl_aset_other by exact Hne. apply F4.
+      + intros dc x. destruct (str_eq_dec dc (dc_of h)) as [->|Hne].
+        * rewrite getl_aset_same, in_app_iff. simpl. intros [H|[<-|[]]]; [apply (F5 (dc_of h) x H)|exact Hnin].
+        * rewrite getl_aset_other by exact Hne. apply F5.
+  Qed.
+
+  (* the unguarded loop with seenHosts *)
+  Fixpoint nts_run_v (walk : list Z) (visited : list Z) (st : nts_state) : res nts_state :=
+    match walk with
+    | [] => Ok st
+    | h :: rest =>
+        if zmem h visited then nts_run_v rest visited st
+        else match nts_step info dcs dc_racks st h with
+             | Ok st' => nts_run_v rest (h :: visited) st'
+             | Crash c => Crash c
+             end
+    end.
+
+  Lemma nts_run_v_ok walk : forall visited st, minv st -> vinv st visited ->
+    exists st' visited', nts_run_v walk visited st = Ok st' /\ minv st' /\ vinv st' visited'
+      /\ (forall x, In x visited' -> In x visited \/ In x walk)
+      /\ exists suf, ns_replicas st' = ns_replicas st ++ suf.
+  Proof.
+    induction walk as [|h rest IH]; intros visited st Hm Hv; simpl.
+    - exists st, visited. split; [reflexivity|]. split; [exact Hm|]. split; [exact Hv|]. split; [tauto|].
+      exists []. rewrite app_nil_r. reflexivity.
+    - destruct (zmem h visited) eqn:Ez.
+      + destruct (IH visited st Hm Hv) as [st' [v' [H1 [H2 [H3 [H4 H5]]]]]].
+        exists st', v'. split; [exact H1|]. split; [exact H2|]. split; [exact H3|]. split; [|exact H5].
+        intros x Hx. destruct (H4 x Hx); tauto.
+      + apply zmem_false in Ez.
+        destruct (nts_step_ok st h Hm) as [st1 [H1 [H2 H3]]]. rewrite H1.
+        assert (Hv1 : vinv st1 (h :: visited)).
+        { destruct H3 as [[_ ->]|[_ Hk]]; [apply vinv_more; exact Hv|exact (vinv_step st visited h st1 Hm Hv Ez Hk)]. }
+        destruct (IH (h :: visited) st1 H2 Hv1) as [st' [v' [K1 [K2 [K3 [K4 [suf K5]]]]]]].
+        exists st', v'. split; [exact K1|]. split; [exact K2|]. split; [exact K3|]. split.
+        * intros x Hx. destruct (K4 x Hx) as [[<-|H]|H]; tauto.
+        * destruct H3 as [[_ ->]|[_ Hk]]; [exists suf; exact K5|].
+          destruct (step_kind_extends _ _ _ Hk) as [suf1 H7]. exists (suf1 ++ suf). rewrite K5, H7, app_assoc. reflexivity.
+  Qed.
+
+  Lemma nts_loop_run walk : forall visited st, minv st ->
+    nts_loop info dcs dc_racks walk visited st = nts_run_v walk visited st.
+  Proof.
+    induction walk as [|h rest IH]; intros visited st Hm; simpl; [reflexivity|].
     destruct (nts_guard dcs st) eqn:Eg.
-    - apply IH. exact H2.
+    - destruct (zmem h visited); [apply IH; exact Hm|].
+      destruct (nts_step_ok st h Hm) as [st1 [H1 [H2 H3]]]. rewrite H1. apply IH. exact H2.
     - (* nothing changes any more *)
-      assert (Hstay : forall w s, minv s -> nts_guard dcs s = false -> nts_run w s = Ok s).
-      { clear -dcs_keys. induction w as [|x w IHw]; intros s Hs Hg; simpl; [reflexivity|].
+      assert (Hstay : forall w v s, minv s -> nts_guard dcs s = false -> nts_run_v w v s = Ok s).
+      { clear -dcs_keys. induction w as [|x w IHw]; intros v s Hs Hg; simpl; [reflexivity|].
+        destruct (zmem x v); [apply IHw; assumption|].
         destruct (nts_step_ok s x Hs) as [s1 [K1 [_ K3]]]. rewrite K1.
         rewrite (step_noop s x s1 (guard_false_noop s x Hs Hg) K3). apply IHw; assumption. }
-      rewrite (step_noop st h st1 (guard_false_noop st h Hm Eg) H3). symmetry. apply Hstay; assumption.
+      symmetry. apply (Hstay (h :: rest) visited st Hm Eg).
   Qed.
 End Inner.
